@@ -49,6 +49,11 @@ fn main() {
                 debug_assert!(!line.contains('\n') && !line.contains('\t'));
                 writeln!(out, "{}", line).unwrap();
             });
+            // end-to-end cases (a real Session against the mock cluster); oracle-only, see e2e.rs
+            verif_harness::e2e::generate(&args[1], &mut rng, tier, &mut |line: String| {
+                debug_assert!(line.starts_with("e2e ") && !line.contains('\n') && !line.contains('\t'));
+                writeln!(out, "{}", line).unwrap();
+            });
         }
         "run" => {
             // Panics are outcomes, not crashes of the harness: silence the default hook.
@@ -58,7 +63,13 @@ fn main() {
             for (idx, line) in stdin.lock().lines().enumerate() {
                 let line = line.unwrap();
                 let mut ctx = Ctx::default();
-                let res = std::panic::catch_unwind(std::panic::AssertUnwindSafe(|| runf(&line, &mut ctx)));
+                let res = std::panic::catch_unwind(std::panic::AssertUnwindSafe(|| {
+                    if line.starts_with("e2e ") {
+                        verif_harness::e2e::run(&args[1], &line, &mut ctx)
+                    } else {
+                        runf(&line, &mut ctx)
+                    }
+                }));
                 let outline = match res {
                     Ok(s) => s,
                     Err(e) => {
